@@ -1,6 +1,7 @@
 package main
 
 import (
+	"os"
 	"fmt"
 	"go/types"
 	"math"
@@ -911,6 +912,52 @@ func registerIntrinsics(m *Machine) {
 		}
 		return done(BoolC(x == y))
 	}
+	I["zzF32s"] = func(m *Machine, fr *Frame, a []Value, call ssa.Instruction, d bool) (Value, int) {
+		name := goString(a[0])
+		n := int(a[1].(*T).C)
+		fn := call.(*ssa.Call).Call.StaticCallee()
+		et := fn.Signature.Results().At(0).Type().Underlying().(*types.Slice).Elem()
+		al := newLoc(types.NewArray(et, int64(n)))
+		for i := 0; i < n; i++ {
+			v := Var(fmt.Sprintf("%s_%d", name, i), 32)
+			if n <= 256 {
+				m.addInput(v)
+			}
+			al.sub[i].v = v
+		}
+		ln := BV(64, uint64(n))
+		return done(Slice{AL: al, Off: BV(64, 0), Len: ln, Cap: ln})
+	}
+	I["zzIgnoreZeroSign"] = func(m *Machine, fr *Frame, a []Value, call ssa.Instruction, d bool) (Value, int) {
+		old := fpIgnoreZeroSign
+		fpIgnoreZeroSign = true
+		m.trail = append(m.trail, func() { fpIgnoreZeroSign = old })
+		return done(nil)
+	}
+	I["zzDiff"] = func(m *Machine, fr *Frame, a []Value, call ssa.Instruction, d bool) (Value, int) {
+		var walk func(x, y *T, path string) bool
+		walk = func(x, y *T, path string) bool {
+			if x == y {
+				return false
+			}
+			if x.Op != y.Op || x.Name != y.Name || len(x.Args) != len(y.Args) || x.IsC || y.IsC {
+				fmt.Fprintf(os.Stderr, "DIFF at %s:\n   %s\n   %s\n", path, termStr(x, 4), termStr(y, 4))
+				return true
+			}
+			for i := range x.Args {
+				if walk(x.Args[i], y.Args[i], path+fmt.Sprint(i)) {
+					return true
+				}
+			}
+			return false
+		}
+		walk(a[0].(*T), a[1].(*T), "")
+		return done(nil)
+	}
+	I["zzDump"] = func(m *Machine, fr *Frame, a []Value, call ssa.Instruction, d bool) (Value, int) {
+		fmt.Fprintf(os.Stderr, "DUMP %s = %s\n", goString(a[0]), termStr(a[1].(*T), 12))
+		return done(nil)
+	}
 	I["zzF32bits"] = func(m *Machine, fr *Frame, a []Value, call ssa.Instruction, d bool) (Value, int) { return done(a[0]) }
 	I["zzF64bits"] = func(m *Machine, fr *Frame, a []Value, call ssa.Instruction, d bool) (Value, int) { return done(a[0]) }
 	ident := func(m *Machine, fr *Frame, a []Value, call ssa.Instruction, d bool) (Value, int) { return done(a[0]) }
@@ -948,4 +995,27 @@ func registerIntrinsics(m *Machine) {
 func (m *Machine) appendBytes(s Slice, bs []*T) Value {
 	st := Str{B: bs}
 	return m.appendValue(s, st, true)
+}
+
+func termStr(t *T, depth int) string {
+	if t.IsC {
+		if t.W == 32 {
+			return fmt.Sprintf("%g", math.Float32frombits(uint32(t.C)))
+		}
+		return fmt.Sprintf("#%x", t.C)
+	}
+	if t.Op == "var" {
+		return t.Name
+	}
+	if depth == 0 {
+		return "..."
+	}
+	s := "(" + t.Op
+	if t.Op == "app" {
+		s = "(" + t.Name
+	}
+	for _, a := range t.Args {
+		s += " " + termStr(a, depth-1)
+	}
+	return s + ")"
 }
